@@ -5,6 +5,8 @@ import Driver.ViewsD
 import Driver.NumExprD
 import Driver.CostD
 import Driver.SpacingD
+import Driver.CodecD
+import Driver.EditorD
 /-
 One line in, one line out.  First word selects the model.
 Run: `lake env lean --run Driver/Main.lean < ops.txt`
@@ -17,6 +19,7 @@ structure World where
   views : ViewsWorld := {}
   num : NumWorld := {}
   cost : CostWorld := {}
+  editor : EditorWorld := {}
 
 def step (w : World) (line : String) : World × String :=
   match splitWords line with
@@ -26,6 +29,8 @@ def step (w : World) (line : String) : World × String :=
   | "N" :: rest => let (s, out) := numStep w.num rest; ({ w with num := s }, out)
   | "Q" :: rest => let (s, out) := costStep w.cost rest; ({ w with cost := s }, out)
   | "W" :: rest => (w, spacingStep rest)
+  | "K" :: rest => (w, codecStep rest)
+  | "E" :: rest => let (e, out) := editorStep w.editor rest; ({ w with editor := e }, out)
   | "V" :: rest => let (v, out) := viewsStep w.views rest; ({ w with views := v }, out)
   | ["reset"] => ({}, "ok")
   | _ => (w, "!bad-op")
